@@ -1856,6 +1856,26 @@ def _kind_class(kind):
     return repo_class(KIND_CLASS[kind]) if kind in KIND_CLASS else None
 
 
+def lazyarg(name, deps, real):
+    """A lazily evaluated ARGUMENT of a specifier (heap object of the real DelayedArgument class) that depends on the given
+    properties of the object under construction; `real` names the real value used by the replay driver."""
+    da = lazy_model(name, deps, lambda ctx: absval(f"{name}(evaluated)"))
+    da.realkey = real
+    return da
+
+
+def lazy_deps(thing):
+    """properties needed to evaluate an argument value: its own requiredProperties, or (tuple / list) those of its components"""
+    if isinstance(thing, PObj) and thing.fields.get("_needsLazyEval") is True:
+        return set(thing.fields.get("_requiredProperties", ()))
+    if isinstance(thing, (tuple, PList)):
+        out = set()
+        for c in thing if isinstance(thing, tuple) else thing.items:
+            out |= lazy_deps(c)
+        return out
+    return set()
+
+
 def install_reference_stubs(reg):
     """Argument values of the constructors are ABSTRACT (Opaque with a kind): coercions, geometry and `ego` are
     trusted stubs -- the obligations of (4) only concern which properties / priorities / dependencies the constructor
@@ -1948,7 +1968,15 @@ def install_reference_stubs(reg):
             return (absval(f"{n}.x", "float"), absval(f"{n}.y", "float"), absval(f"{n}.z", "float"))
         return thing
 
-    ident = lambda I, thing, *a, **k: thing  # noqa: E731
+    def ident(I, thing, *a, **k):
+        # toTypes: "if the given value requires lazy evaluation [after toDistribution: also a tuple / list with such a component],
+        # this function returns a TypeChecker object that performs the type conversion after specifier resolution" -- i.e. a
+        # lazy value requiring the same properties
+        deps = lazy_deps(thing)
+        if deps:
+            return lazy_model("coerced(...)", deps, lambda ctx: absval("coerced value"))
+        return thing
+
     for fn in ("toVector", "toScalar", "toHeading", "toOrientation"):
         reg.models[f"{TS}:{fn}"] = ident
     reg.models[f"{TS}:toType"] = ident
@@ -1966,7 +1994,7 @@ def install_reference_stubs(reg):
     reg.extra_modules["builtins"] = NativeModule("builtins", {"float": float, "int": int})
     reg.trust(
         "type_support.toVector/toType/toScalar/toHeading/toOrientation/coerce",
-        "stubs (reference-table contracts only): coercions return their (abstract) argument; isA/canCoerce/underlyingType decide by the declared kind of the abstract argument (Vector, Point, OrientedPoint, Object, Region, VectorField, float, tuple) using the real class hierarchy",
+        "stubs (reference-table contracts only): coercions return their (abstract) argument -- for an argument that needs lazy evaluation, or a tuple/list with such a component, a lazy value requiring the same properties (documented behaviour of toTypes/TypeChecker); isA/canCoerce/underlyingType decide by the declared kind of the abstract argument (Vector, Point, OrientedPoint, Object, Region, VectorField, float, tuple) using the real class hierarchy",
     )
     reg.trust(
         "veneer.ego/RelativeTo/OffsetAlong, Region.uniformPointIn, Orientation.fromEuler, Vector(...), attribute/method/operator/subscript on abstract geometric values",
@@ -2019,6 +2047,17 @@ def reference_cases():
         ("apparently facing *heading* [from *vector*]", "ApparentlyFacing", lambda: dict(heading=absval("H", "float")), None, "apparently facing <heading>"),
         ("apparently facing *heading* [from *vector*]", "ApparentlyFacing", lambda: dict(heading=absval("H", "float"), fromPt=vec()), None, "apparently facing <heading> from <vector>"),
     ]
+    # arguments that are lazily evaluated (depend on properties of the object under construction), directly or through a
+    # component of a tuple / list of angles or coordinates: the specifier must depend on whatever its argument depends on
+    lz = lambda: lazyarg("LAZY_YAW", ("position",), "lazy_yaw")  # noqa: E731   e.g. (30 deg relative to vf).yaw
+    cases += [
+        ("facing *orientation*", "Facing", lambda: dict(heading=lazyarg("LAZY_H", ("position",), "lazy_heading")), None, "facing <lazily evaluated heading depending on position>", {"position"}),
+        ("facing *orientation*", "Facing", lambda: dict(heading=(lz(), 0.1, 0)), None, "facing <tuple of angles with a lazily evaluated component>", {"position"}),
+        ("facing *orientation*", "Facing", lambda: dict(heading=PList([lz(), 0.1, 0])), None, "facing <list of angles with a lazily evaluated component>", {"position"}),
+        ("with *property* *value*", "With", lambda: dict(prop="foo", val=lz()), None, "with foo <lazily evaluated value>", {"position"}),
+        ("with *property* *value*", "With", lambda: dict(prop="foo", val=(lz(), 1)), None, "with foo <tuple with a lazily evaluated component>", {"position"}),
+        ("at *vector*", "At", lambda: dict(pos=lazyarg("LAZY_VEC", ("width",), "lazy_vector")), None, "at <lazily evaluated vector depending on width>", {"width"}),
+    ]
     for head, ctors in (("(left | right) of", ("LeftSpec", "RightSpec")), ("(ahead of | behind)", ("Ahead", "Behind")), ("(above | below)", ("Above", "Below"))):
         for ctor in ctors:
             vt = f"{head} (*vector*) [by *scalar*]" if head.startswith("(left") else f"{head} *vector* [by *scalar*]"
@@ -2029,7 +2068,7 @@ def reference_cases():
             cases.append((f"{head} *OrientedPoint* [by *scalar*]", ctor, lambda: dict(pos=opt(), dist=2.0), None, f"{ctor} <OrientedPoint> by <scalar>"))
             cases.append((f"{head} *Object* [by *scalar*]", ctor, lambda: dict(pos=obj()), None, f"{ctor} <Object>"))
             cases.append((f"{head} *Object* [by *scalar*]", ctor, lambda: dict(pos=obj(), dist=2.0), None, f"{ctor} <Object> by <scalar>"))
-    return cases
+    return [c if len(c) == 6 else c + (set(),) for c in cases]
 
 
 def expected_entry(doc, title, oriented):
@@ -2066,7 +2105,7 @@ def register_reference(reg):
 
         def post(I, env, outcome, ctor=ctor):
             eng = I.eng
-            idx, (title, _, build, oriented, descr) = env.vars["_case"]
+            idx, (title, _, build, oriented, descr, argdeps) = env.vars["_case"]
             name = f"veneer.{ctor}[{descr}]"
             eng.check(f"{name}#reference.section_found_in_specifiers_rst", title in doc, detail=err or title)
             if title not in doc:
@@ -2084,7 +2123,8 @@ def register_reference(reg):
             got = {("<given>" if kk == "foo" else kk): v for kk, v in zip(pr.keys, pr.vals) if not (isinstance(kk, str) and kk.startswith("_"))}
             eng.check(f"{name}#reference.specifies_exactly_the_listed_properties_with_the_listed_priorities", got == want, detail=f"code {got} / reference {want}")
             gdeps = set(sp.fields.get("requiredProperties", ()))
-            eng.check(f"{name}#reference.depends_on_exactly_the_listed_properties", gdeps == wdeps, detail=f"code {sorted(gdeps)} / reference {sorted(wdeps)}")
+            eng.check(f"{name}#reference.depends_on_every_property_its_argument_depends_on", argdeps <= gdeps, detail=f"argument needs {sorted(argdeps)} / specifier declares {sorted(gdeps)}")
+            eng.check(f"{name}#reference.depends_on_exactly_the_listed_properties", gdeps == wdeps | argdeps, detail=f"code {sorted(gdeps)} / reference {sorted(wdeps)} + argument {sorted(argdeps)}")
             mod = sp.fields.get("modifiable_props")
             gmods = set(mod.items) if isinstance(mod, PSet) else set()
             is_mod = getattr(sp.cls, "name", "") == "ModifyingSpecifier"
@@ -2097,6 +2137,7 @@ def register_reference(reg):
                 setup=setup,
                 post=post,
                 inline_all=True,
+                env=CTOR_ENV,
                 note="argument kinds abstract: " + "; ".join(case[4] for _, case in cases) + ". Internal properties (leading underscore) are not part of the reference",
                 replay=replay_reference,
                 properties=("C06",),
@@ -2105,10 +2146,33 @@ def register_reference(reg):
         )
 
 
+def _scenic_demo_lazy_facing():
+    """Front-end confirmation: `facing (<lazy yaw>, pitch, roll)` must give the same object whatever the order of the specifiers."""
+    try:
+        import math
+
+        import scenic
+
+        prelude = 'vf = VectorField("F", lambda pos: 0.1 * pos.x + 0.01 * pos.z)\n'
+        specs = ["facing ((30 deg relative to vf).yaw, 0.1, 0)", "at (1, 2, 0)"]
+        res = []
+        for perm in itertools.permutations(specs):
+            src = prelude + "ego = new Object " + ", ".join(perm) + "\n"
+            try:
+                scene, _ = scenic.scenarioFromString(src, mode2D=False).generate(maxIterations=100)
+                ok = math.isclose(scene.egoObject.yaw, math.radians(30) + 0.1, abs_tol=1e-6)
+                res.append(f"`new Object {', '.join(perm)}` -> yaw {scene.egoObject.yaw:.4f}" + ("" if ok else " (WRONG)"))
+            except Exception as e:
+                res.append(f"`new Object {', '.join(perm)}` -> {type(e).__name__}: {str(e)[:80]}")
+        return "Scenic programs: " + "; ".join(res)
+    except Exception as e:  # pragma: no cover - demo only
+        return f"(front-end demonstration failed: {type(e).__name__}: {e})"
+
+
 def replay_reference(inputs, clause):
     """Build the REAL specifier for the case (real vectors, regions, objects) and compare with the parsed reference."""
     idx = int(inputs["case"])
-    title, ctor, build, oriented, descr = reference_cases()[idx]
+    title, ctor, build, oriented, descr, argdeps = reference_cases()[idx]
     import scenic.syntax.veneer as v
     from scenic.core.regions import PolygonalRegion
     from scenic.core.vectors import Orientation, Vector, VectorField
@@ -2134,9 +2198,24 @@ def replay_reference(inputs, clause):
             "Region": lambda a: PolygonalRegion([(0, 0), (4, 0), (4, 4), (0, 4)], orientation=(field if a.attrs.get("orientation") is not None else None)),
             None: lambda a: 3,
         }
-        kwargs = {}
-        for k, a in build().items():
-            kwargs[k] = real[a.typ](a) if isinstance(a, Opaque) else a
+        from scenic.core.lazy_eval import DelayedArgument
+
+        lazy_heading = v.RelativeTo(0.5, field)  # `0.5 relative to f`: needs position
+        real_lazy = {"lazy_heading": lazy_heading, "lazy_yaw": lazy_heading.yaw, "lazy_vector": DelayedArgument({"width"}, lambda ctx: Vector(ctx.width, 0, 0), _internal=True)}
+
+        def to_real(a):
+            if isinstance(a, Opaque):
+                return real[a.typ](a)
+            if isinstance(a, PObj) and hasattr(a, "realkey"):
+                return real_lazy[a.realkey]
+            if isinstance(a, tuple):
+                return tuple(to_real(x) for x in a)
+            if isinstance(a, PList):
+                return [to_real(x) for x in a.items]
+            return a
+
+        kwargs = {k: to_real(a) for k, a in build().items()}
+        wdeps = wdeps | set(argdeps)
         spec = getattr(v, ctor)(**kwargs)
         if ctor == "On" and isinstance(kwargs.get("thing"), v.Object):
             # which of the two abstract Object cases a real object falls in is decided by its onSurface
@@ -2147,7 +2226,14 @@ def replay_reference(inputs, clause):
         if got != want:
             return f"{descr}: real constructor specifies {got}, reference says {want}"
         if gdeps != wdeps:
-            return f"{descr}: real constructor depends on {sorted(gdeps)}, reference says {sorted(wdeps)}"
+            msg = f"{descr}: real constructor depends on {sorted(gdeps)}, reference says {sorted(wdeps)}" + (f" (the argument needs {sorted(argdeps)})" if argdeps else "")
+            if ctor == "Facing" and argdeps:
+                v.deactivate()
+                try:
+                    msg += "; " + _scenic_demo_lazy_facing()
+                finally:
+                    v.activate(CompileOptions())
+            return msg
         if gmods != wmods:
             return f"{descr}: real constructor may modify {sorted(gmods)}, reference says {sorted(wmods)}"
     finally:
